@@ -428,6 +428,27 @@ func execDefaultSort(c defaultSortCase, _ core.Source) (res core.Result) {
 				return
 			}
 		}
+		// the Go array that is sorted may be a window of a longer one (a row of a flat matrix, the first page of
+		// a table): what lies behind the window is not the sorter's to touch
+		for _, spare := range []int{1, len(c.Keys) / 2, len(c.Keys), 2*len(c.Keys) + 3} {
+			whole := make([]int, len(c.Keys)+spare)
+			copy(whole, c.Keys)
+			for i := len(c.Keys); i < len(whole); i++ {
+				whole[i] = 9000 + i
+			}
+			window := whole[:len(c.Keys)]
+			age.Sorter[int]().Make().SortValues(window)
+			if fmt.Sprint(window) != fmt.Sprint(a) {
+				res.Violation = core.Violate("C09/window/not-sorted", "sorting the first %d values of a Go array of %d gave %v, expected %v", len(c.Keys), len(whole), window, a)
+				return
+			}
+			for i := len(c.Keys); i < len(whole); i++ {
+				if whole[i] != 9000+i {
+					res.Violation = core.Violate("C09/window/wrote-outside", "sorting the first %d values of a Go array of %d changed value %d behind them from %d to %d", len(c.Keys), len(whole), i+1, 9000+i, whole[i])
+					return
+				}
+			}
+		}
 		l := col.List[int](lib.Notation()).MakeFromArray(c.Keys)
 		l.SortValues()
 		if fmt.Sprint(l.AsArray()) != fmt.Sprint(a) {
